@@ -91,7 +91,9 @@ def make_cells(gi, tier):
         M1 = gi.toM(gi.exp(x))
         M2 = gi.toM(gi.exp(-x))
         want = np.linalg.inv(M1)
-        tol = 2 * L.BAND_TOL if (L.band_result(gi, want) or L.band_result(gi, M1)) else 1e-9
+        # inside the Euler gimbal band the rotation block is only good to the band tolerance; the translation columns of the
+        # inverse are -R^T p, so their error carries the size of the translations
+        tol = 2 * L.BAND_TOL * (1 + float(max(np.max(np.abs(want)), np.max(np.abs(M1))))) if (L.band_result(gi, want) or L.band_result(gi, M1)) else 1e-9
         L.close(M2, want, "%s: M(exp(-x)) vs inv(M(exp(x)))" % nm, atol=tol, rtol=1e-9,
                 scale=(_scale(case)) ** 2 + np.max(np.abs(want)), x=x.tolist())
 
@@ -113,7 +115,7 @@ def make_cells(gi, tier):
         Mt = gi.toM(gi.exp(t * x))
         Mst = gi.toM(gi.exp((s + t) * x))
         want = Ms @ Mt
-        tol = 3 * L.BAND_TOL if (L.band_result(gi, want) or L.band_result(gi, Ms) or L.band_result(gi, Mt)) else 1e-9
+        tol = 3 * L.BAND_TOL * (1 + float(np.max(np.abs(want)))) if (L.band_result(gi, want) or L.band_result(gi, Ms) or L.band_result(gi, Mt)) else 1e-9
         L.close(Mst, want, "%s: M(exp((s+t)x)) vs M(exp(sx))M(exp(tx))" % nm, atol=tol, rtol=1e-9,
                 scale=(_scale(case["x"])) ** 2 + np.max(np.abs(want)), x=x.tolist(), s=s, t=t)
 
